@@ -4,14 +4,15 @@
 #include <stdio.h>
 #include <stddef.h>
 #include <sys/types.h>
-#define MCF_WRAP_LDFLAGS "-Wl,--wrap=malloc,--wrap=calloc,--wrap=realloc,--wrap=free,--wrap=strdup,--wrap=strndup"
 void mcf_reset(void);              /* clear table, counters, faults, poison; tracking off */
 void mcf_on(void);                 /* allocation requests are counted/tracked/faulted from here */
 void mcf_off(void);
 long mcf_requests(void);           /* allocation requests seen while on (since reset/restart) */
 void mcf_restart_count(void);      /* request counter back to 0 (table kept) */
 void mcf_fail_at(long k1, long k2);/* the k1-th and k2-th request return NULL (0 = none) */
-long mcf_hits(void);               /* how many injected failures were actually hit */
+long mcf_hits(void);
+const char* mcf_fail_site(void); /* function containing the first allocation that was made to fail (ASan builds) */
+void mcf_trace(int on);         /* print a stack trace at every injected failure (replay aid) */               /* how many injected failures were actually hit */
 long mcf_live(void);               /* tracked blocks still allocated */
 size_t mcf_live_bytes(void);
 void mcf_poison(int byte);         /* fill fresh malloc/realloc-growth bytes with this value (-1 off) */
